@@ -326,10 +326,13 @@ func runC14(sc scen, choose vsched.Chooser, fault func() int) outcome {
 		mon.s = s
 		runT := s.Go("run", true, func() { rt.VerifRun(ctx) })
 		running := func() bool { return runT.PendingKind() == "recv" } // Run reached <-ctx.Done()
+		// bfd and shutdown threads are created once the router runs, so that they have the highest thread ids: the
+		// default scheduler then lets the traffic run dry first, and ONE deviation is enough to start Shutdown (or a BFD
+		// transmission) at any point of the traffic.
+		s.Point(&vsched.Op{Kind: "await-running", Enabled: running})
 		var bfdT *vsched.Thread
 		if sc.bfd > 0 {
 			bfdT = s.Go("bfd", false, func() {
-				s.Point(&vsched.Op{Kind: "await-running", Enabled: running})
 				disable := false
 				li := control.LinkInfo{Provider: "udpip", Local: control.LinkEnd{IA: cfg.IA, Addr: rtr.LocalExtAddr(2)},
 					Remote: control.LinkEnd{IA: rtr.NbrIA(2), Addr: rtr.RemoteAddr(2)}, BFD: control.BFD{Disable: &disable}}
@@ -344,12 +347,11 @@ func runC14(sc scen, choose vsched.Chooser, fault func() int) outcome {
 		}
 		gate := false
 		shutT := s.Go("shutdown", false, func() {
-			s.Point(&vsched.Op{Kind: "await-gate", Enabled: func() bool { return running() && (sc.early || gate) }})
+			s.Point(&vsched.Op{Kind: "await-gate", Enabled: func() bool { return sc.early || gate }})
 			rt.Shutdown()
 		})
 		if !sc.early {
 			// let the traffic run dry, then the pool must be whole again (minus what receivers prefetched)
-			s.Point(&vsched.Op{Kind: "await-running", Enabled: running})
 			s.WaitQuiescent()
 			poolKey := reflect.ValueOf(rt.VerifPoolChan()).Pointer()
 			for p, st := range mon.pk {
